@@ -27,7 +27,8 @@ theorem empty_protected_both_spellings (hw : HW) :
   · rfl
   · simp [decProtected, decProtectedContent, parseTop, fuelFor, parseItem, parseHead, parsePairs,
       labelsOK, decodePairs, validateHeaderParameters, validateLoop, castAlg, algorithmOf, lookupLabel,
-      GoMap.lookup, normalizeLabel, bind, Out.bind, maxNested, maxElems, lbl]
+      GoMap.lookup, normalizeLabel, bind, Out.bind, maxNested, maxElems, lbl,
+      (by decide : headerLabelsUntagged [0xa0] = true)]
 
 /-- a payload of any head width is accepted -/
 theorem payload_any_width (hw : HW) (b : Bytes) : decByteString (.bstr hw b) = .ok (some b) := rfl
